@@ -176,6 +176,10 @@ func (m *roaManager) HandleROAEvent(ev *roaEvent) {
 		client.state.RpkiMessages = oc.RpkiMessages{}
 		client.conn = nil
 		go client.tryConnect()
+		if client.timer != nil {
+			// still running if no EndOfData since the last disconnection
+			client.timer.Stop()
+		}
 		client.timer = time.AfterFunc(time.Duration(client.lifetime)*time.Second, client.lifetimeout)
 		client.oldSessionID = client.sessionID
 	case roaConnected:
